@@ -541,6 +541,122 @@ fn cfg_strategy() -> BoxedStrategy<Cfg> {
 }
 
 /// render_component through the API with both autoescape flags
+// ------------------------------------------------------------------------------------------
+// data that enters through serde: enum variant names, struct field names, chars, tuples, options, newtypes
+
+#[derive(serde::Serialize, Clone, Copy)]
+enum HotUnit {
+    #[serde(rename = "<b>")]
+    A,
+    #[serde(rename = "'q\"")]
+    B,
+    #[serde(rename = "a&<'")]
+    C,
+    Plain,
+}
+#[derive(serde::Serialize)]
+struct HotNew(String);
+#[derive(serde::Serialize)]
+enum HotShape {
+    #[serde(rename = "<n>")]
+    N(String),
+    #[serde(rename = "'t'")]
+    T(String, char),
+    #[serde(rename = "\"s\"")]
+    S {
+        #[serde(rename = "<f>")]
+        f: String,
+    },
+}
+#[derive(serde::Serialize)]
+struct HotStruct {
+    name: String,
+    #[serde(rename = "<k>")]
+    weird: String,
+    e: HotUnit,
+    o: Option<String>,
+    c: char,
+    t: (String, HotUnit),
+    v: Vec<String>,
+    m: BTreeMap<String, String>,
+    nt: HotNew,
+    sh: Vec<HotShape>,
+    cow: std::borrow::Cow<'static, str>,
+}
+pub const SERDE_TEMPLATES: &[&str] = &[
+    "{{ v }}", "{{ v.name }}", "{{ v.e }}", "{{ v.o }}", "{{ v.c }}", "{{ v.t }}", "{{ v.t[1] }}", "{{ v.v }}", "{{ v.m }}", "{{ v.nt }}", "{{ v.sh }}", "{{ v.cow }}",
+    "{{ v.e ~ v.c }}", "{{ [v.e, v.c] }}", "{{ v.e | upper }}", "{{ v.e | default(value=1) }}", "{% set z = v.e %}{{ z }}{% set y %}{{ v.e }}{% endset %}{{ y }}",
+    "{% for k, x in v.m %}{{ k }}={{ x }};{% endfor %}", "{% for k, x in v %}{{ k }}:{% endfor %}", "{% for x in v.sh %}{% for k, y in x %}{{ k }}={{ y }};{% endfor %}{% endfor %}",
+    "{{ v.e if true else 1 }}", "{{ v.e or 1 }}", "{{ v.v | first }}{{ v.v | join(sep=v.c) }}", "{% for ch in v.name %}{{ ch }}{% endfor %}", "{{ u }}{{ [u] }}{{ u ~ u }}",
+];
+/// with the default escaper, no `safe` and an escaping template, nothing that came through serde reaches the output unescaped
+pub fn check_serde_source(hi: usize, ti: usize, api: u8, l: &mut Local) -> Check {
+    let hot = HOT[hi];
+    let unit = [HotUnit::A, HotUnit::B, HotUnit::C, HotUnit::Plain][hi % 4];
+    let v = HotStruct {
+        name: hot.to_string(),
+        weird: hot.to_string(),
+        e: unit,
+        o: Some(hot.to_string()),
+        c: hot.chars().next().unwrap_or('<'),
+        t: (hot.to_string(), unit),
+        v: vec![hot.to_string(), "<".to_string()],
+        m: [(hot.to_string(), hot.to_string()), ("'k".to_string(), "\"v".to_string())].into_iter().collect(),
+        nt: HotNew(hot.to_string()),
+        sh: vec![HotShape::N(hot.to_string()), HotShape::T(hot.to_string(), '>'), HotShape::S { f: hot.to_string() }],
+        cow: std::borrow::Cow::Owned(hot.to_string()),
+    };
+    let case = || json!({"kind": "serde_source", "hot": hi, "template": ti, "api": api});
+    let mut c = match api % 3 {
+        0 => {
+            let mut c = tera::Context::new();
+            c.insert("v", &v);
+            c
+        }
+        1 => {
+            #[derive(serde::Serialize)]
+            struct Top<'a> {
+                v: &'a HotStruct,
+            }
+            match tera::Context::from_serialize(&Top { v: &v }) {
+                Ok(c) => c,
+                Err(e) => return Err(Fail::new("C01/serde-source", format!("from_serialize failed: {e}"), case())),
+            }
+        }
+        _ => {
+            let mut c = tera::Context::new();
+            c.insert_value("v", tera::Value::from_serializable(&v));
+            c
+        }
+    };
+    c.insert("u", &unit);
+    let mut t = tera::Tera::new();
+    if let Err(e) = t.add_raw_template("s.html", SERDE_TEMPLATES[ti]) {
+        return Err(Fail::new("C01/serde-source", format!("{}: {e}", SERDE_TEMPLATES[ti]), case()));
+    }
+    let r = guard(|| t.render("s.html", &c).map_err(|e| e.to_string()));
+    l.eval();
+    match r {
+        Err(p) => Err(Fail::new("C01/panic", p, case())),
+        Ok(Err(_)) => {
+            l.label("serde-source:render-error");
+            Ok(())
+        }
+        Ok(Ok(out)) => {
+            l.label("serde-source:rendered");
+            if let Some(ch) = out.chars().find(|c| "<>\"'".contains(*c)) {
+                return Err(Fail::new("C01/unescaped-data-in-escaping-output", format!("`{}` with serde data built from {hot:?} (unit variant {:?}) renders {out:?}, which contains `{ch}`", SERDE_TEMPLATES[ti], serde_json::to_string(&unit).unwrap_or_default()), case()));
+            }
+            if out.contains("&lt;") || out.contains("&gt;") || out.contains("&quot;") || out.contains("&#39;") || out.contains("&#x27;") {
+                l.nontrivial(hash_of(&(hi, ti, api, 0x5e)));
+                l.label("serde-source:hot-reached-sink");
+            }
+            l.sample(|| json!({"template": SERDE_TEMPLATES[ti], "hot": hot, "output": out.chars().take(200).collect::<String>()}));
+            Ok(())
+        }
+    }
+}
+
 pub fn check_component_api(i: usize, auto: bool, body: bool, l: &mut Local) -> Check {
     let hot = HOT[i];
     let mut t = tera::Tera::new();
@@ -584,6 +700,9 @@ pub fn run(rep: &Report) {
     });
     let api: Vec<(usize, bool, bool)> = (0..HOT.len()).flat_map(|i| [(i, true, true), (i, true, false), (i, false, true), (i, false, false)]).collect();
     run_enum(rep, "render_component_api", &api, |(i, a, b), l| check_component_api(*i, *a, *b, l));
+    let serde_cases: Vec<(usize, usize, u8)> = (0..HOT.len()).flat_map(|h| (0..SERDE_TEMPLATES.len()).flat_map(move |t| (0u8..3).map(move |a| (h, t, a)))).collect();
+    run_enum(rep, "serde_sources", &serde_cases, |(h, t, a), l| check_serde_source(*h, *t, *a, l));
+    rep.floor("serde-source:hot-reached-sink", 600);
     for (lab, min) in [("render:ok", 150_000), ("invariant-checked", 50_000), ("cfg:Marking", 20_000), ("cfg:Mixed", 10_000), ("cfg:ChildSuper", 10_000), ("cfg:SuffixAfter", 5_000), ("cfg:RenderStr", 10_000), ("sink:write-path", 20_000), ("sink:write-top", 100_000), ("hop:Include", 10_000), ("hop:Block", 2_000), ("hop:CompArg0", 3_000), ("hop:CompArg1", 3_000), ("hop:CompArg2", 3_000), ("hop:CompBody", 3_000), ("hop:CompResult", 3_000), ("hop:Capture", 5_000), ("hop:Capture+filter", 5_000), ("hop:FilterSection", 10_000), ("hop:LoopStr", 5_000), ("hop:LoopMapKV", 2_000), ("hop:ConcatL", 3_000), ("hop:Safe", 2_000), ("hop:ZSafe", 2_000), ("hop:ZSafeFn", 2_000), ("source:CtxMapKey", 5_000), ("source:CtxBytes", 5_000), ("source:Literal", 20_000), ("source:TeraContext", 5_000), ("api:render_component", 64)] {
         rep.floor(lab, min);
     }
@@ -595,6 +714,7 @@ pub fn run(rep: &Report) {
 pub fn replay(_rep: &Report, case: &serde_json::Value) -> Option<Check> {
     let mut l = Local::new();
     match case.get("kind")?.as_str()? {
+        "serde_source" => Some(check_serde_source(case.get("hot")?.as_u64()? as usize % HOT.len(), case.get("template")?.as_u64()? as usize % SERDE_TEMPLATES.len(), case.get("api")?.as_u64()? as u8, &mut l)),
         "component_api" => Some(check_component_api(case.get("hot")?.as_u64()? as usize, case.get("auto")?.as_bool()?, case.get("body")?.as_bool()?, &mut l)),
         "autoescape" => {
             // source-level replay against the recorded expectation (default escaper and suffix-based configurations)
